@@ -134,7 +134,8 @@ class CSSRule(cssutils.util.Base2):
     def _getParentStyleSheet(self):
         # rules contained in other rules (@media) use that rules parent
         if self.parentRule:
-            return self.parentRule._parentStyleSheet
+            # the containing rule may be nested itself (@media in @media)
+            return self.parentRule.parentStyleSheet
         else:
             return self._parentStyleSheet
 
